@@ -164,14 +164,12 @@ func (g *gemExtension) init(input string) error {
 		}
 		elements = append(elements, gemElement{str: str})
 	}
-	// Trim trailing zeros.
+	// Trim trailing zeros, however many digits they are spelled with.
 	for i := len(elements) - 1; i >= 0; i-- {
-		if elements[i].str != "0" {
+		if strings.Trim(elements[i].str, "0") != "" {
 			break // Only the zeros at the end go.
 		}
-		if elements[i].str == "0" {
-			elements = elements[:i]
-		}
+		elements = elements[:i]
 	}
 	// Integers for numbers.
 	for i, e := range elements {
